@@ -107,11 +107,14 @@ def gen_case(rng, table):
         case["scenario_option"] = {"scale": "country", "dairy": float(rng.choice([0, 5, -1]))}
     if rng.random() < 0.08:
         case["ret"] = False
+    # flag combinations: (return_results, save_all_results) in (T,F) mostly, (T,T) = web interface, (F,T), (F,F)
+    case["save"] = rng.random() < 0.30
     # sequences on ONE runner object: about half of the calls reuse the previous case's runner (runs of 2-3 and more),
     # some go through run_many_options (two inner calls on the same object; the second is the one compared)
     case["reuse"] = rng.random() < 0.55
     if rng.random() < 0.10 and case["scenario_option"]:
         case["via_many"] = True
+        case["save"] = False
         case["ret"] = False          # run_many_options passes return_results=False
     r = rng.random()
     if r < 0.10:
@@ -128,7 +131,7 @@ def gen_case(rng, table):
 def impl_payload(case):
     return {"list": case["list"], "fracs": case["fracs_all"], "default": 0.0, "scenario_option": case["scenario_option"],
             "overrides": case["overrides"], "ret": case["ret"], "reuse": case.get("reuse", False),
-            "via_many": case.get("via_many", False)}
+            "via_many": case.get("via_many", False), "save": case.get("save", False)}
 
 
 # ------------------------------------------------------------------ Coq term of a case
@@ -197,6 +200,12 @@ def audit_case(ctx, case, res, table):
     if case["ret"]:
         if res["keys"] != [names[c] for c in counted]:
             fails.append(("C15:once@run_model_no_trade", "result keys are not exactly the names of the countries run (each once)"))
+    if "saved_files" in res:
+        want = sorted(f"verif_c15_{names[c]}_{kind}.csv" for c in counted
+                      for kind in ("animal_populations", "biofuels", "feed", "meat")) if (case.get("save") and case["ret"]) else []
+        if res["saved_files"] != want:
+            fails.append(("C15:saved-files@save_all_results_to_csv",
+                          f"{len(res['saved_files'])} files written, expected {len(want)} (4 per country run)"))
     if pops is not None:
         np_ = sum(pops[c] for c in counted)
         nf_ = sum(pops[c] * min(Fraction(1), Fraction(fr[c])) for c in counted)
@@ -226,7 +235,7 @@ def audit_case(ctx, case, res, table):
 def run(ctx):
     ctx.level = "proof"
     ctx.rule = ("case = (countries_list, fraction per country returned by the stubbed optimiser, scenario_option, table "
-                "overrides, return_results, same-runner-object / via run_many_options); evaluation = one call of run_model_no_trade compared with the model inside Coq "
+                "overrides, return_results x save_all_results, same-runner-object / via run_many_options); evaluation = one call of run_model_no_trade compared with the model inside Coq "
                 "and audited clause by clause; non-trivial = the run was accepted, ran at least one country and the list is "
                 "non-empty or some fraction is capped; distinct = hash of (list, fractions of the countries run, options, overrides)")
     ctx.trusted += ["translator harness/gen_country_table.py (csv module + decimal.Decimal; AST of ImportUtilities country lists)",
@@ -383,6 +392,10 @@ def corpus_cases(table):
         fr["USA"] = 1.5
         fr["CHN"] = 1.0
         out.append({"kind": kind, "list": l, "fracs_all": fr, "reuse": len(out) % 3 != 0, **base})
+    # web-interface combination and the other flag settings
+    for ret, save in ((True, True), (False, True), (True, True)):
+        out.append({"kind": "flags", "list": ["USA", "CHN", "NZL"] if ret else ["!USA"], "fracs_all": dict(half), "reuse": False,
+                    "save": save, **dict(base, ret=ret)})
     # the same selection twice and through run_many_options on one runner object
     for l in (["USA", "CHN"], ["!USA"]):
         fr = dict(half)
